@@ -31,6 +31,9 @@ FROZEN = {
 ENV_SOURCES = ("time.time", "time.monotonic", "datetime.now", "datetime.utcnow", "datetime.today", "date.today", "random.",
                "uuid.uuid1", "uuid.uuid4", "os.getpid", "os.listdir", "os.scandir", "glob.glob", "os.environ", "os.getenv",
                "socket.gethostname", "getpass.getuser", "secrets.")
+# builtins whose result differs between two runs on the same document: hash() of a str / bytes / anything containing one is salted per
+# process (PYTHONHASHSEED), id() is an address.  Inside __hash__ / __eq__ they only feed the interpreter's own tables.
+ENV_BUILTINS = ("hash", "id")
 
 
 ORDERED = {"list", "sortedlist", "tuple"}
@@ -219,6 +222,11 @@ def run(rep: Report, ctx: Any) -> str:
                     continue
                 n_env += 1
                 rep.fail("R12.1", f"{short(f)}::{txt}", f"environment-dependent source `{txt}` is used by the generator", where(f, n))
+            elif isinstance(n, ast.Call) and txt in ENV_BUILTINS and f.name not in ("__hash__", "__eq__"):
+                n_env += 1
+                rep.fail("R12.1", f"{short(f)}::{txt}()", f"`{txt}()` differs from one run to the next (hash() of text is salted per process, id() is an "
+                         "address): a value computed from it that reaches a name, a path or generated text makes the output depend on the run",
+                         where(f, n))
     rep.control("R12.1 env-source table", any(s in "time.time" for s in ENV_SOURCES) and any(s in "random.choice" for s in ENV_SOURCES))
     rep.indexed["environment_sources"] = n_env
 
